@@ -24,6 +24,8 @@ def proj(r):
 
 
 def oracle_one(ctx, src, r):
+    if r["status"] == "timeout":
+        return True, ""        # still running after the limit: not a crash (long runs are outside the statement); counted as excluded
     if r["status"] in ("0", "103") and "panicked at" not in r["stderr"]:
         return True, ""
     return False, f"exit status {r['status']}: {r['stderr'][:300]}"
@@ -76,6 +78,8 @@ def run(ctx, model_ok):
                 ctx.exclude("cyclic_value_rendered")
                 continue
             cls = status_class(r)
+            if r["status"] == "timeout":
+                ctx.exclude("still_running_after_limit")
             ctx.dist(label + ":" + cls.split(":")[0])
             ctx.nontrivial((label, cls, re.sub(r"\d+", "N", r["stderr"].split("\n")[0])[:60]))
             ok, why = oracle_one(ctx, s, r)
